@@ -36,6 +36,9 @@ ID = "C12"
 LEVEL = "exploration"
 DESIGN_REF = "DESIGN.md#C12"
 TECHNIQUE = "runtime monitoring: differential/history checker (fresh-process baselines vs. long-lived call histories and interleaved iterators) + shared-state fingerprints at quiescent points"
+LEVEL_TEXT = (
+    'Exploration of call histories: every output in long-lived processes (random histories, interleaved iterators, caching on/off, page subsets, allocator perturbation) is compared with the output of a fresh interpreter process for the same bytes and options, and process-wide tables are fingerprinted after every call. Right level: purity is a property of all histories; differential comparison against a history-free execution is exact, and the pool is built to collide on every cache key the code uses.'
+)
 RULE = (
     "pool of 20 colliding documents; baselines = each (document, API) in a fresh subprocess; histories = 20-60 random calls "
     "(API in {extract_text, extract_pages, to_fp text, to_fp xml} x caching {on,off} x page subset x page-at-a-time) and "
